@@ -54,7 +54,8 @@ PROPS = {
         "assumptions": TRUST,
     },
     "C07": {
-        "rules": ["SUBREG", "DISPATCH", "ADAPTER", "FIFO"],
+        "rules": ["SUBREG", "DISPATCH", "ADAPTER", "FIFO", "MULTI"],
+        "filters": {"MULTI": r"PublishRx"},
         "explanation": "Registration of (subscription identifier, stream) on every path that writes the SUBSCRIBE; delivery receiver = keyed lookup by the received subscription identifier; payload moved whole (no field write, no &mut use); "
                        "subscriptions removed only on the failed-delivery edge; who-may-mutate table; decision table of SubscribeStream::poll_next by path enumeration.",
         "not_decided": "order / exactly-once over histories with lagging or dropped streams (executions); a PUBLISH carrying several Subscription Identifiers (known finding, codec keeps one)",
